@@ -161,3 +161,20 @@ Proof.
            rewrite Forall_forall in Hlen. specialize (Hlen tb Hin). rewrite <- Hts in Hlen. fold tsz in Hlen.
            unfold lenZ in Hlen. rewrite <- Hlen, Nat2Z.id. reflexivity.
 Qed.
+
+(* the third alternative occurs: a two-tracer, one-time-block file cut after its first data block (368 of 600 bytes)
+   opens and presents a time block with one tracer (C14 finding C14-bpch-first-block-tracer-cut) *)
+Lemma prefix_tracer_cut_witness : exists T D f c,
+  wf T D f = true /\ tables_ok T D = true /\ 0 <= c < 4 * lenZ (enc f)
+  /\ exists v, impl_open T D (firstn (Z.to_nat (c / 4)) (enc f)) c = Ok v
+               /\ (length (r_vars v) < length (tb0 f))%nat /\ length (r_data v) = 1%nat.
+Proof.
+  pose (blk := fun tid d =>
+    {| b_model := [1195724627; 893334327; 1277173792; 538976288; 538976288; 1084227584; 1082130432; 1; 1];
+       b_cat := [1229598017; 1447505188; 538976288; 538976288; 538976288; 538976288; 538976288; 538976288; 538976288; 538976288];
+       b_tid := tid; b_unit := repeat 538976288 10; b_tau := [1083129856; 0; 1083129857; 0]; b_resv := repeat 538976288 10;
+       b_nx := 1; b_ny := 1; b_nz := 1; b_start := [1; 1; 1]; b_data := [d] |}).
+  exists [], [], {| f_ftype := repeat 538976288 10; f_title := repeat 538976288 20; f_times := [[blk 1 1065353216; blk 2 1073741824]] |}, 368.
+  vm_compute. repeat split; try reflexivity; try discriminate.
+  eexists. repeat split; try reflexivity.
+Qed.
